@@ -1,6 +1,5 @@
 (* Lib/QueueCheck.v — executable glue for the C17 correspondence (no proofs, nothing here is used by a theorem).
-   The harness writes every observed cycle of a real pymtl3 queue as a compact tuple
-        ((flags, msg, out, cnt), (a, b, c, regs))
+   The harness writes every observed cycle of a real pymtl3 queue as one packed number (see cobs_of)
    and a case as (model id, kind id, capacity, history).  `case_first_bad` replays
      - the FIFO specification  (Lib/Fifo.v  fifo_step)            on the offers, and
      - the concrete model named by the model id (Lib/QueueRTL.v / Lib/QueueCL.v) on the raw port signals,
@@ -18,11 +17,15 @@ Definition obs_of (x : Z * Z * Z * Z) : obs :=
         (if bit f 3 then Some (bit f 4) else None) (if bit f 5 then Some (bit f 6) else None)
         (bit f 7) (bit f 8) out (if bit f 11 then Some cnt else None).
 
-Definition ccode : Type := (Z * Z * Z * Z) * (Z * Z * Z * list Z).
+(* one observed cycle packed into ONE number (parsed much faster than nested tuples):
+   bits 0-11 flags | 12-19 msg | 20-27 out | 28-31 cnt | 32-35 a | 36-39 b | 40-43 c | 44-47 #regs | 48+8j.. regs[j] *)
+Definition ccode : Type := Z.
+Definition fld (x lo w : Z) : Z := Z.land (Z.shiftr x lo) (Z.ones w).
 Definition cobs_of (x : ccode) : cobs :=
-  let '(o, (a, b, c, regs)) := x in
-  let '(f, _, _, _) := o in
-  mkCObs (obs_of o) (bit f 9) (bit f 10) a b c regs.
+  let f := fld x 0 12 in
+  mkCObs (obs_of (f, fld x 12 8, fld x 20 8, fld x 28 4)) (bit f 9) (bit f 10)
+         (fld x 32 4) (fld x 36 4) (fld x 40 4)
+         (map (fun j => fld x (48 + 8 * Z.of_nat j) 8) (seq 0 (Z.to_nat (fld x 44 4)))).
 
 Definition kind_of (z : Z) : qkind := if z =? 1 then Pipe else if z =? 2 then Bypass else Normal.
 
